@@ -405,6 +405,15 @@ func (t *tractserverMonitor) getFailureDomainToFreeTS() []map[string][]string {
 	return t.domainToTS
 }
 
+// getFailureDomains returns the failure domain hierarchy of each of 'hosts',
+// whether or not they can currently serve new data.
+func (t *tractserverMonitor) getFailureDomains(hosts []string) [][]string {
+	if len(hosts) == 0 {
+		return nil
+	}
+	return t.fds.GetFailureDomain(hosts)
+}
+
 // Given the mapping from tractservers to their failure domains, build reverse
 // mappings from failure domains to the included tractservers. The result is a
 // slice of maps indexed by the failure domain levels from the lowest to the
